@@ -318,6 +318,81 @@ def curve_history(run):
                             payload={"kind": "rerun"}, theorem="C08_valid_*")
 
 
+PROC_SRC = """
+import sys, json, warnings
+warnings.simplefilter("ignore")
+import numpy as np
+sys.path.insert(0, %(src)r)
+from nanite import poc
+
+
+def curve(nb, ni):
+    x = np.arange(nb + ni, dtype=float)
+    f = np.zeros(nb + ni)
+    f[nb:] = 2e-13 * (x[nb:] - nb) ** 1.5
+    f += 3e-12 * np.sin(np.arange(nb + ni) * 0.7)
+    return f
+
+
+out = []
+for nb, ni in %(order)r:
+    f = curve(nb, ni)
+    row = []
+    for m in %(meths)r:
+        try:
+            row.append(int(poc.compute_poc(f, m)))
+        except BaseException as e:
+            row.append(type(e).__name__)
+    out.append(row)
+print(json.dumps(out))
+"""
+
+
+def process_order_cases(run):
+    """the estimate for a curve does not depend on which curves the process
+    analysed before: a long curve analysed after very short ones (and after
+    another long one) in a new interpreter gets the index it gets when it
+    is the first curve of a new interpreter"""
+    import json
+    import os
+    import subprocess
+    meths = ["fit_constant_polynomial", "fit_line_polynomial",
+             "fit_constant_line", "deviation_from_baseline"]
+    long_ = (1000, 3000)
+    orders = {"alone": [long_],
+              "after-short": [(8, 4), (30, 12), long_],
+              "after-other-long": [(2500, 500), long_]}
+    if run.tier != "quick":
+        orders["after-many"] = [(8, 4), (200, 900), (15, 6), long_]
+    res = {}
+    for name, order in orders.items():
+        env = dict(os.environ)
+        env["PYTHONHASHSEED"] = "1"
+        r = subprocess.run(
+            [sys.executable, "-W", "ignore", "-c", PROC_SRC % {
+                "src": str(common.REPO / "src"), "order": order,
+                "meths": meths}],
+            env=env, capture_output=True, text=True, timeout=600)
+        if r.returncode != 0:
+            run.obligation("process-order-run", False, r.stderr[-1500:])
+            return
+        res[name] = json.loads(r.stdout.strip().splitlines()[-1])[-1]
+    for name in orders:
+        if name == "alone":
+            continue
+        for m, a, b in zip(meths, res["alone"], res[name]):
+            run.case({"process-order": name, "method": m},
+                     kind="process-order:" + m)
+            if a != b:
+                run.failing(SITE, f"process-order|{name}|{m}",
+                            f"{m}: a curve of {sum(long_)} samples gets index "
+                            f"{b!r} when the process analysed "
+                            f"{orders[name][:-1]} (baseline, indentation "
+                            f"lengths) before, and {a!r} as the first curve "
+                            "of a process", payload={"kind": "rerun"},
+                            theorem="C08_invariant_fit_based")
+
+
 # --------------------------------------------------------------------------
 # correspondence with the Coq model (small arrays)
 # --------------------------------------------------------------------------
@@ -411,6 +486,7 @@ def check(run):
                             "processed", payload={"kind": "rerun"},
                             theorem="C08_valid_*")
     curve_history(run)
+    process_order_cases(run)
     # unknown method
     try:
         call(np.linspace(0, 1, 50), "no_such_method")
